@@ -366,18 +366,21 @@ mutual
       -- a plain container converted by `from_json` inherits `allow_partial` of its holder
       -- (`accepts_partial(self)`, dict.py:591 / list.py:438); a constructed one keeps its own.
       let pt := if par.isSome && !sl && aw && !pt && !isObj then hpart else pt
-      let r := evalItems cfg { f with nextId := id + 1 } pending id isObj pt p items
+      -- list items are addressed by their position
+      let r := evalItems cfg { f with nextId := id + 1 } pending id isObj pt p
+        (match kind with | .list => some 0 | _ => none) items
       let its := match kind with
         | .obj cls => normObjItems cls r.2
-        | .list => renumber r.2
-        | .dict => r.2
+        | _ => r.2
       let t := Tree.node { id := id, parent := par, path := p, kind := kind, sealed := false, accW := aw, part := pt } its
       (r.1, sealIf sl t)
-  def evalItems (cfg : Cfg) (f : Forest) (pending : Option Nat) (h : Nat) (holderObj : Bool) (hpart : Bool) (p : List Key) : List (Key × VE) → Forest × Items
+  def evalItems (cfg : Cfg) (f : Forest) (pending : Option Nat) (h : Nat) (holderObj : Bool) (hpart : Bool) (p : List Key)
+      (pos : Option Nat) : List (Key × VE) → Forest × Items
     | [] => (f, [])
-    | (k, v) :: r =>
+    | (k0, v) :: r =>
+      let k := match pos with | some n => Key.i n | none => k0
       let a := evalVE cfg f pending (some h) holderObj hpart (p ++ [k]) v
-      let b := evalItems cfg a.1 pending h holderObj hpart p r
+      let b := evalItems cfg a.1 pending h holderObj hpart p (pos.map (· + 1)) r
       (b.1, (k, a.2) :: b.2)
 end
 
